@@ -55,17 +55,20 @@ StatusUsed(x) == IF x.deny THEN 403 ELSE x.status
 FirstDigit(n) == n \div 100
 Matches(x) == (x.pat = "4" /\ FirstDigit(StatusUsed(x)) = 4) \/ (x.pat = "5" /\ FirstDigit(StatusUsed(x)) = 5)
 
-\* "yes" exactly one record, "no" none, "open" not specified (RelevantOnly without a pattern)
-Record(x) ==
-  CASE Engine(x) = "Off" -> "no"
-    [] Engine(x) = "On"  -> "yes"
-    [] OTHER -> IF x.pat = "" THEN "open" ELSE IF Matches(x) THEN "yes" ELSE "no"
-
 Fired(x) == <<[id |-> 10, fl |-> Flags(x.p1, x.f1)]>> \o (IF x.deny THEN <<[id |-> 20, fl |-> Flags(2, x.f2)]>> ELSE << >>)
 \* rule ids listed in the record (part K): exactly the fired rules that are audit-enabled
 Listed(x) == IF x.k THEN {Fired(x)[i].id : i \in {j \in 1..Len(Fired(x)) : Fired(x)[j].fl.audit}} ELSE {}
 \* the error callback fires once per fired rule with logging enabled
 Callbacks(x) == {Fired(x)[i].id : i \in {j \in 1..Len(Fired(x)) : Fired(x)[j].fl.log}}
+
+\* "yes" exactly one record, "no" none.  RelevantOnly without a relevant-status pattern: the
+\* transaction is relevant exactly when a rule with audit logging enabled fired (the reading the
+\* code documents at ProcessLogging; nothing else could make a transaction relevant then).
+AuditRuleFired(x) == \E i \in 1..Len(Fired(x)) : Fired(x)[i].fl.audit
+Record(x) ==
+  CASE Engine(x) = "Off" -> "no"
+    [] Engine(x) = "On"  -> "yes"
+    [] OTHER -> IF x.pat = "" THEN (IF AuditRuleFired(x) THEN "yes" ELSE "no") ELSE IF Matches(x) THEN "yes" ELSE "no"
 
 AtMostOneRecord == Record(c) \in {"yes", "no", "open"}
 OffNeverLogs == Engine(c) = "Off" => Record(c) = "no"
